@@ -82,14 +82,22 @@ def chkObjAt (P : LP) (tol : Rat) (x : Vec) (obj : Rat) : Bool := decide (absR (
 /-- `|obj − opt| ≤ tol·(1+|opt|)`. -/
 def chkObjNear (tol obj opt : Rat) : Bool := decide (absR (obj - opt) ≤ tol * (1 + absR opt))
 
-/-- squared 2-norm of the positive part of `A x − b` (the least primal residual `‖Ax+s−b‖²` over
-slacks `s ≥ 0`). -/
-def LP.resid2 (P : LP) (x : Vec) : Rat :=
-  sumTo P.m fun i => let r := P.rowDot x i - vget P.b i; if 0 < r then r * r else 0
+/-- rounding allowance of row `i`: `ulp · (∑_j |A_ij x_j| + |b_i| + 1)`; with `ulp = (n+m+2)·2⁻⁵⁰` this
+bounds the error of the code's own double-precision evaluation of `(A x + s − b)_i` (exact value
+`ulp = 0`). -/
+def LP.roundSlack (P : LP) (ulp : Rat) (x : Vec) (i : Nat) : Rat :=
+  ulp * ((sumTo P.n fun j => absR (P.a i j * vget x j)) + absR (vget P.b i) + 1)
 
-/-- interior point `FEASIBLE`: `x ≥ 0` and primal residual `≤ r`. -/
-def chkResidual (P : LP) (r : Rat) (x : Vec) : Bool :=
-  allTo P.n (fun j => decide (0 ≤ vget x j)) && decide (P.resid2 x ≤ r * r)
+/-- squared 2-norm of the positive part of `A x − b − δ` (`δ = roundSlack`; for `ulp = 0` the least
+primal residual `‖Ax+s−b‖²` over slacks `s ≥ 0`). -/
+def LP.resid2 (P : LP) (ulp : Rat) (x : Vec) : Rat :=
+  sumTo P.m fun i =>
+    let r := P.rowDot x i - vget P.b i - P.roundSlack ulp x i
+    if 0 < r then r * r else 0
+
+/-- interior point `FEASIBLE`: `x ≥ 0` and primal residual `≤ r` (up to the rounding allowance). -/
+def chkResidual (P : LP) (r ulp : Rat) (x : Vec) : Bool :=
+  allTo P.n (fun j => decide (0 ≤ vget x j)) && decide (P.resid2 ulp x ≤ r * r)
 
 /-- componentwise `|x_j − x'_j| ≤ tol` and equal length. -/
 def vecNear (tol : Rat) (x x' : Vec) : Bool :=
